@@ -91,6 +91,22 @@ CHECKS["C13"] = dict(
     text="The specification computes, for every list of up to 3 paths over 10 candidates of a forest containing every node kind and name-collision pattern, the manifest that must result (and shows at design level that the ordinal-prefix scheme can produce duplicate paths). The real ScanPaths/resolver are run on each of the 1110 lists with several spellings; the output must equal the expected manifest and satisfy uniqueness, order, totals, resolvability, size = readable bytes and determinism.",
     note="trusted: TLC as enumerator and reference implementation; a fixed forest, not arbitrary trees")
 
+CHECKS["C10"] = dict(
+    category="model_checking", design_ref="5.6",
+    technique="TLA+ spec Routing.tla (handler-level routing semantics computing every client's inbox) checked exhaustively to a depth bound and simulated with TLC; simulated histories executed by real WebSocket clients against the real thruserv binary with inbox-by-inbox comparison",
+    text="TLC checks isolation, per-pair FIFO and index consistency of the routing model for every history up to depth 5 (thorough 6) over 3 sockets / 2 peer ids / 2 sessions and on long simulated histories over 4 sockets / 3 peer ids; each simulated history (create, join incl. duplicate peer ids, leave, addressed / broadcast / spoofed / malformed sends) is replayed on the real server and after every step each client's real receive log must equal the model's inbox.",
+    note="trusted: TLC, the settle wait before comparing inboxes; concurrency inside the hub is C11's subject")
+CHECKS["C14"] = dict(
+    category="model_checking", design_ref="5.9",
+    technique="TLA+ spec Server.tla (admission paths as processes with separate check and act steps, discrete time, expiry, host disconnect) checked exhaustively with TLC; real thruserv binary driven through sequential and hook-delayed concurrent scenarios, plus an overlay-injected stress of the limiter primitives",
+    text="TLC explores all interleavings of 4 concurrent requests under limit values {0,1,2} and checks admission-only-while-live, the three counted limits and 'zero means off' (check-then-act enforcement is refuted); the real binary is started per scenario and the census of admitted creates / joins / sockets / messages is compared with the configured limits, joins after host disconnect or expiry must get 404.",
+    note="trusted: TLC, the delay mode of the hooks for deterministic bursts, wall-clock rate checks with slack")
+CHECKS["C16"] = dict(
+    category="exploration", design_ref="5.11",
+    technique="TLA+ spec Config.tla (configuration space as states, one contract) enumerated with TLC; every enumerated configuration is a real thruserv process exercised by the real client functions",
+    text="TLC enumerates 165 flag configurations (every flag at default / small / 0 with at most two flags off default, all-small, all-zero) and 99 TURN-spelling x peer-id-class combinations; for each the real server is started and the real CreateSession, URL builder and TURN URL parser must succeed and agree with independently recomputed credentials.",
+    note="trusted: TLC as enumerator; TURN servers are not contacted")
+
 NOT_APPLICABLE = {}
 
 HOOK_COMMITS = ["6b59734", "6335744"]
